@@ -206,9 +206,10 @@ TrTag(c) ==
 
 TrIdent(c) ==
   CASE pc = "ID" ->
-         CASE c = "dot" -> {O("ID_dot")}
-           [] c \in {"sl", "bs"} -> {[O("ID_abs") EXCEPT !.f1 = "/"]}
-           [] c = "q"   -> {O("ID_q")}
+         CASE c = "dot" -> {[O("ID_dot") EXCEPT !.f1 = "$"]}       \* f1 = "$": not a keyword
+           [] c \in {"sl", "bs"} -> {[O("ID_abs") EXCEPT !.f1 = "/"]}  \* f1 = "/": closing or special command
+           [] c = "q"   -> {[O("ID_q") EXCEPT !.f1 = "$"]}
+           [] c = "dol" -> {[O("ID_abs") EXCEPT !.f1 = "$"]}
            [] OTHER     -> {O("ID_abs")}
     [] pc = "ID_dot" -> {Back(O("ID_abs"), <<c>>)}
     [] pc = "ID_q"   -> IF c = "dot" THEN {O("ID_dot")} ELSE {Err}
@@ -216,6 +217,7 @@ TrIdent(c) ==
          IF c \in Alnum THEN {O("ID_abs")}
          ELSE IF f1 = "/"
               THEN {[Emit(Back(Ret("InsideTag"), <<c>>), FALSE) EXCEPT !.mkb = "#endcmd"], Err}
+              ELSE IF f1 = "$" THEN {Emit(Back(Ret("InsideTag"), <<c>>), TRUE)}
               ELSE {Emit(Back(Ret("InsideTag"), <<c>>), TRUE),
                     [Emit(Back(Ret("InsideTag"), <<c>>), FALSE) EXCEPT !.mkb = "#cmd"],
                     [Emit(Back(Ret("Literal"), <<c>>), FALSE) EXCEPT !.mkb = "#literal"],
@@ -354,8 +356,15 @@ Terminates == ended ~> (fin # "")
 (*         classes and spelling markers that reaches it;                     *)
 (*   EDGE: every (function, first class, next function) return.              *)
 (***************************************************************************)
+RECURSIVE Join(_)
+Join(s) == IF s = <<>> THEN "" ELSE IF Len(s) = 1 THEN s[1] ELSE s[1] \o " " \o Join(Tail(s))
+
 PathView == <<mode, fn, pc, f1, f2, dd, lo, pb, ended, fin>>
-PathReport == (fin = "" /\ pb = <<>>) => PrintT(<<"PATH", mode, pc, f1, f2, dd, lo, ended, hist>>)
+PathReport == (fin = "" /\ pb = <<>> /\ ~ended) =>
+  PrintT("PATH|" \o mode \o "|" \o pc \o "|" \o f1 \o "|" \o f2 \o "|" \o Join(hist))
 EdgeView == <<mode, fn, pc, f1, f2, dd, lo, pb, ended, fin, first, lastret.from, lastret.first, lastret.to>>
-EdgeReport == lastret.from # "" => PrintT(<<"EDGE", mode, lastret.from, lastret.first, lastret.to>>)
+EdgeReport == lastret.from # "" =>
+  PrintT("EDGE|" \o mode \o "|" \o lastret.from \o "|" \o lastret.first \o "|" \o lastret.to)
+\* view for runs that need hist AND the spin detection (NoSpin looks at last and tick)
+SpinView == <<mode, fn, pc, f1, f2, dd, lo, pb, ended, fin, last, tick>>
 =============================================================================
